@@ -49,6 +49,11 @@ ASSUMPTIONS = {
                  "stated in /verif/lean where proved",
     "A11": "the rewrite rules of pyvc/terms.py are instances of the lemmas in /verif/lean/ListLemmas.lean (checked by Lean "
            "4.33 + Mathlib when the thorough tier / setup runs)",
+    "A12": "PlantUML renderer (C14): dir(), re (compile / match), str.format and str() of option values are not modelled - the matched "
+           "attribute names, the mapping built from them, the formatted title and the string form of a value are uninterpreted functions of "
+           "the vertex, the pattern / format value and the attribute heap; getattr succeeds on every name dir() lists; re.compile returns a "
+           "pattern object; cls.__mro__ is non-empty and starts with cls; user_render_func / str.format return (a str); option tables cover "
+           "the classes of the graph (precondition WF); ''.join of the characters of s is s",
     "ALLOC": "a freshly allocated object is distinct from and unreferenced by every existing object",
 }
 
